@@ -7,7 +7,8 @@ import (
 )
 
 // lcp returns the longest common prefix of a and b.
-// Note: it does no allocations.
+// Note: it does no allocations; the result has no spare capacity, so appending
+// to it never writes into the argument's backing array.
 func lcp(a, b []byte) []byte {
 	if len(a) < len(b) {
 		return lcp(b, a)
@@ -15,11 +16,11 @@ func lcp(a, b []byte) []byte {
 
 	for i := range b {
 		if a[i] != b[i] {
-			return b[:i]
+			return b[:i:i]
 		}
 	}
 
-	return b
+	return b[:len(b):len(b)]
 }
 
 func lcpMany(kv []keyValue) []byte {
